@@ -277,10 +277,16 @@ func CompareValues(a, b any) int {
 
 // Path formatting
 
+// quotedKeyEscaper escapes the two characters that would otherwise end a quoted
+// key early: a key is written between `["` and `"]` as a string literal.
+var quotedKeyEscaper = strings.NewReplacer(`\`, `\\`, `"`, `\"`)
+
 // ToDotPath converts an error path to dot notation.
 // Integer segments use bracket notation (e.g., [0]), string segments use dot
-// notation unless they contain non-identifier characters, in which case bracket
-// notation with quotes is used. Compatible with TypeScript Zod v4 path formatting.
+// notation unless they are empty or contain non-identifier characters, in which
+// case bracket notation with quotes is used; a quote or backslash inside a quoted
+// key is backslash-escaped, so two different paths never render alike.
+// Compatible with TypeScript Zod v4 path formatting.
 func ToDotPath(path []any) string {
 	if len(path) == 0 {
 		return ""
@@ -297,12 +303,12 @@ func ToDotPath(path []any) string {
 			b.WriteByte(']')
 		case string:
 			switch {
-			case i == 0 && !needsBracketNotation(v):
-				b.WriteString(v)
-			case needsBracketNotation(v):
+			case v == "" || needsBracketNotation(v):
 				b.WriteString(`["`)
-				b.WriteString(v)
+				b.WriteString(quotedKeyEscaper.Replace(v))
 				b.WriteString(`"]`)
+			case i == 0:
+				b.WriteString(v)
 			default:
 				b.WriteByte('.')
 				b.WriteString(v)
@@ -341,7 +347,7 @@ func formatBracketPath(path []any) string {
 			b.WriteByte(']')
 		case string:
 			b.WriteString(`["`)
-			b.WriteString(v)
+			b.WriteString(quotedKeyEscaper.Replace(v))
 			b.WriteString(`"]`)
 		default:
 			fmt.Fprintf(&b, "[%v]", v)
